@@ -86,7 +86,7 @@ def decMsg (kind content mt cs : String) : Option (Cps → Except Err (Cps × Pa
 def showInfo (i : Info) : String :=
   "OK " ++ encOpt i.encoding ++ " " ++ flag i.mismatch ++ " " ++ encOpt i.httpMediaType ++ " " ++
   encOpt i.httpEncoding ++ " " ++ encOpt i.metaMediaType ++ " " ++ encOpt i.metaEncoding ++ " " ++
-  encOpt i.xmlEncoding
+  encOpt i.xmlEncoding ++ " " ++ encCps i.str
 
 def handle (line : String) : String :=
   match words line with
